@@ -670,7 +670,7 @@ def check_fmt(pid, tier, seed, replay=None):
             "Format must terminate without error; " +
             ("ReadFile(Format(x)) must be accepted and equal ReadFile(x) with doc comments erased" if pid == "C16" else "Format(Format(x)) must equal Format(x) byte for byte") +
             "; the extracted formatter model's output is compared byte for byte on every text; distinct = distinct texts")
-    run, broken = base_run(pid, tier, seed, rule, "props/%s.v" % pid, ["%s_partial" % pid, "%s_structs" % pid, "%s_records" % pid, "%s_schema" % pid] + (["C17_schema_iter"] if pid == "C17" else []))
+    run, broken = base_run(pid, tier, seed, rule, "props/%s.v" % pid, ["%s_partial" % pid, "%s_structs" % pid, "%s_records" % pid, "%s_schema" % pid] + ["%s_schema_iter" % pid])
     run.cov["explanation"] = ("partial: proved are that Format panics on no input and the instances of the statement on the four texts that were mangled before the formatter was repaired "
                               "(%s_partial, coq/props/%s.v); the general statement needs the inversion of the tokenizer on the formatter's output and is decided by this run: "
                               "the property evaluated on the implementation, and the formatter model compared byte for byte" % (pid, pid))
